@@ -135,6 +135,38 @@ func genesisState(variant int) (types.State, types.Header) {
 	st.Vartheta = make(types.ReadyQueue, types.EpochLength)
 	st.Xi = make(types.AccumulatedQueue, types.EpochLength)
 	st.Delta = types.ServiceAccountState{}
+	// Service accounts with storage items, a preimage with its lookup entry, and a lookup request without preimage
+	// (variant 0 stays without services). Storage / lookup entries have hashed state keys: the node cannot map them back
+	// into types.State and carries them as raw "unmatched" key-values from block to block — they must survive a rejected
+	// block like everything else. No accumulation is needed: they only round-trip through SetState / commit / GetState.
+	if variant > 0 {
+		nsvc := 1 + variant%2
+		for si := 0; si < nsvc; si++ {
+			id := types.ServiceID(42 + 35*si + variant)
+			acc := types.ServiceAccount{StorageDict: types.Storage{}, PreimageLookup: types.PreimagesMapEntry{}, LookupDict: types.LookupMetaMapEntry{}}
+			var bytesTotal uint64
+			nitems := 2 + (variant+si)%3
+			for k := 0; k < nitems; k++ {
+				val := bytes.Repeat([]byte{byte(0xA0 + k + variant)}, 5+17*k)
+				acc.StorageDict[fmt.Sprintf("c26-key-%d-%d", variant, k)] = types.ByteSequence(val)
+				bytesTotal += uint64(34 + len(val))
+			}
+			blob := types.ByteSequence(fmt.Sprintf("c26 preimage of service %d", id))
+			ph := hash.Blake2bHash(blob)
+			acc.PreimageLookup[ph] = blob
+			acc.LookupDict[types.LookupMetaMapkey{Hash: ph, Length: types.U32(len(blob))}] = types.TimeSlotSet{st.Tau}
+			req := hash.Blake2bHash([]byte(fmt.Sprintf("c26 requested only %d", id)))
+			acc.LookupDict[types.LookupMetaMapkey{Hash: req, Length: 9}] = types.TimeSlotSet{}
+			bytesTotal += uint64(81+len(blob)) + 81 + 9
+			acc.ServiceInfo = types.ServiceInfo{
+				CodeHash: hash.Blake2bHash([]byte(fmt.Sprintf("c26-service-code-%d", id))),
+				Balance:  1_000_000_000,
+				Items:    types.U32(nitems + 4),
+				Bytes:    types.U64(bytesTotal),
+			}
+			st.Delta[id] = acc
+		}
+	}
 	hdr := types.Header{Slot: st.Tau}
 	hdr.Parent[0] = byte(variant + 1)
 	hdr.ExtrinsicHash[1] = 0xC2
